@@ -37,9 +37,9 @@ def run(ctx):
                     "through API.ShardNodes on every node)",
                     "gate hooks in executor.worker / executor.mapper order the arrivals (k-th passage waits for the k-th "
                     "passage of its predecessors, then a short sleep lets the predecessor's channel send land)"]
-    ctx.assumptions += ["TopN order among equal counts is free; TopN(n) is compared exactly only when every shard holds at "
-                        "most n rows (otherwise the candidates are an approximation by design): entries must still carry "
-                        "true totals in descending order",
+    ctx.assumptions += ["TopN order among equal counts is free; TopN(t, n) over the count matrix: true totals, descending, and "
+                        "no row that is among the n best of some shard under every tie order is omitted for a worse one "
+                        "(TopNOK; pass 1 asks each shard for its n best only, so the global top n is not demanded)",
                         "Count and ClearRow/Store reducers (uint64 +, ||) are inline closures: bound by the system test only",
                         "node failure / retry on secondary nodes is not exercised"]
 
